@@ -520,8 +520,8 @@ def layout_cases(ctx, rng, name, logical, n_rewrites, exhaustive_chunks):
             phys = physical_lines(rng, logical, indent=plain, trailing=['', '', ' ', '\t '], breaks=rng.choice([0.1, 0.3, 0.6]), comments_p=0.3)
         eol = ['lf', 'crlf', 'mixed'][rng.randrange(3)]
         nb = len(phys) - 1
-        if exhaustive_chunks and r == 0 and nb <= 14:
-            cuts_list = list(cut_sets(rng, nb, 6, ctx.scale(120, 4000)))
+        if exhaustive_chunks and r in (0, 3) and nb <= 14:
+            cuts_list = list(cut_sets(rng, nb, 6, ctx.scale(100, 700)))
         else:
             cuts_list = [set(rng.sample(range(nb), min(nb, rng.randint(0, 6)))) if nb > 0 else set()]
         for cuts in cuts_list:
@@ -564,7 +564,7 @@ def stream_layout(ctx):
             continue
         seen_texts.append((original, base))
         shipped = 'shipped' in kinds
-        n_rew = 1 if fixed_chunks else (ctx.scale(4, 12) if shipped else ctx.scale(6, 8))
+        n_rew = 1 if fixed_chunks else (ctx.scale(4, 12) if shipped else ctx.scale(6, 24))
         if fixed_chunks:
             cases = [({'program': name, 'mode': 'corpus', 'eol': '-', 'cuts': len(fixed_chunks) - 1}, fixed_chunks, None)]
         else:
